@@ -51,6 +51,9 @@ func expOf(lm uint, a *big.Int) *big.Int {
 }
 
 func genC01(g *Rng, tier string, emit func(Op)) {
+	for _, o := range highIndexSplitOps(g, fixedKey("k1024a", false), "C01/split-at-high-index") {
+		emit(o)
+	}
 	keys := []*KeyPair{toyKey("toy1", 6), fixedKey("k1024a", false)}
 	ncreds := 2
 	if tier == "thorough" {
@@ -225,6 +228,11 @@ func genC01(g *Rng, tier string, emit func(Op)) {
 				// cannot be reconstructed), behind a genuine proof / alone
 				if !toy && len(disclosed) > 0 {
 					for _, o := range unboundMemberOps(g, []*KeyPair{kp}, []any{tree}, ctx, nonce, false, "C01/unbound-member") {
+						emit(o)
+					}
+				}
+				if !toy && len(disclosed) > 0 && len(pk.R) > 2 {
+					for _, o := range ownChallengeMemberOps(g, kp, ctx, nonce, false, "C01/member-with-own-challenge") {
 						emit(o)
 					}
 				}
